@@ -424,6 +424,98 @@ pub fn graph_dump(db: &Db) -> J {
     r.unwrap_or_else(|_| json!({"panic": true}))
 }
 
+fn pv_of(v: &Value) -> nervusdb_api::PropertyValue {
+    use nervusdb_api::PropertyValue as PV;
+    match v {
+        Value::Null => PV::Null,
+        Value::Bool(b) => PV::Bool(*b),
+        Value::Int(i) => PV::Int(*i),
+        Value::Float(f) => PV::Float(*f),
+        Value::String(s) => PV::String(s.clone()),
+        Value::List(l) => PV::List(l.iter().map(pv_of).collect()),
+        Value::Map(m) => PV::Map(m.iter().map(|(k, v)| (k.clone(), pv_of(v))).collect()),
+        other => panic!("unsupported property value {other:?}"),
+    }
+}
+
+/// Builds the database at `path` from {"nodes":[{ext,label,props:{k:param}}],"edges":[{src,type,dst,props}]}
+/// with the bulk loader ("bulk") or through write transactions ("txn").  Returns the input echoed in
+/// tagged-value form and the outcome.
+fn build_bulk(path: &Path, b: &J, mode: &str) -> (J, String) {
+    use nervusdb_core::{BulkEdge, BulkNode};
+    let mut nodes = Vec::new();
+    let mut edges = Vec::new();
+    let mut echo_nodes = Vec::new();
+    let mut echo_edges = Vec::new();
+    let props_of = |o: &J| -> (BTreeMap<String, nervusdb_api::PropertyValue>, Vec<J>) {
+        let mut m = BTreeMap::new();
+        let mut e = Vec::new();
+        if let Some(obj) = o.as_object() {
+            for (k, v) in obj {
+                let val = value_from_param(v);
+                e.push(json!([k, tv(&val).0]));
+                m.insert(k.clone(), pv_of(&val));
+            }
+        }
+        (m, e)
+    };
+    for n in b["nodes"].as_array().cloned().unwrap_or_default() {
+        let (m, e) = props_of(&n["props"]);
+        let ext = n["ext"].as_u64().unwrap();
+        let label = n["label"].as_str().unwrap_or("").to_string();
+        echo_nodes.push(json!({"ext": ext, "label": label, "props": e}));
+        nodes.push(BulkNode { external_id: ext, label, properties: m });
+    }
+    for ed in b["edges"].as_array().cloned().unwrap_or_default() {
+        let (m, e) = props_of(&ed["props"]);
+        let t = ed["type"].as_str().unwrap_or("").to_string();
+        echo_edges.push(json!({"src": ed["src"], "type": t, "tcp": cps(&t), "dst": ed["dst"], "props": e}));
+        edges.push(BulkEdge { src_external_id: ed["src"].as_u64().unwrap(), rel_type: t, dst_external_id: ed["dst"].as_u64().unwrap(), properties: m });
+    }
+    let echo = json!({"nodes": echo_nodes, "edges": echo_edges});
+    let r = catch_unwind(AssertUnwindSafe(|| -> Result<(), String> {
+        if mode == "bulk" {
+            nervusdb_core::bulkload(path, nodes, edges).map_err(|e| e.to_string())
+        } else {
+            let db = Db::open(path).map_err(|e| e.to_string())?;
+            let mut ids: BTreeMap<u64, u32> = BTreeMap::new();
+            // several transactions, so that the data is spread over runs
+            for chunk in nodes.chunks(3) {
+                let mut tx = db.begin_write();
+                for n in chunk {
+                    let l = tx.get_or_create_label(&n.label).map_err(|e| e.to_string())?;
+                    let id = tx.create_node(n.external_id, l).map_err(|e| e.to_string())?;
+                    ids.insert(n.external_id, id);
+                    for (k, v) in &n.properties {
+                        tx.set_node_property(id, k.clone(), v.clone()).map_err(|e| e.to_string())?;
+                    }
+                }
+                tx.commit().map_err(|e| e.to_string())?;
+            }
+            for chunk in edges.chunks(4) {
+                let mut tx = db.begin_write();
+                for e in chunk {
+                    let r = tx.get_or_create_rel_type(&e.rel_type).map_err(|e| e.to_string())?;
+                    let (s, d) = (ids[&e.src_external_id], ids[&e.dst_external_id]);
+                    tx.create_edge(s, r, d);
+                    for (k, v) in &e.properties {
+                        tx.set_edge_property(s, r, d, k.clone(), v.clone()).map_err(|e| e.to_string())?;
+                    }
+                }
+                tx.commit().map_err(|e| e.to_string())?;
+            }
+            drop(db);
+            Ok(())
+        }
+    }));
+    let res = match r {
+        Ok(Ok(())) => "ok".to_string(),
+        Ok(Err(e)) => format!("err:{e}"),
+        Err(_) => "panic".to_string(),
+    };
+    (echo, res)
+}
+
 pub fn run_sessions(sessions: &[J], out: &mut dyn Write, scratch: &Path) -> J {
     let mut n_cases = 0u64;
     let mut n_err = 0u64;
@@ -433,6 +525,13 @@ pub fn run_sessions(sessions: &[J], out: &mut dyn Write, scratch: &Path) -> J {
         let dir = scratch.join("cy");
         let _ = std::fs::remove_dir_all(&dir);
         std::fs::create_dir_all(&dir).unwrap();
+        // C30: the session's database is produced by the bulk loader, or by committing the same
+        // nodes and relationships through write transactions
+        let mut bulk_echo = J::Null;
+        if let Some(b) = s.get("bulk") {
+            let (echo, res) = build_bulk(&dir.join("g"), b, s["bulk_mode"].as_str().unwrap_or("bulk"));
+            bulk_echo = json!({"echo": echo, "res": res, "mode": s["bulk_mode"]});
+        }
         let mut db = match Db::open(dir.join("g")) {
             Ok(d) => d,
             Err(e) => {
@@ -467,6 +566,9 @@ pub fn run_sessions(sessions: &[J], out: &mut dyn Write, scratch: &Path) -> J {
         }
         if let Some(m) = s.get("meta") {
             sev["meta"] = m.clone();
+        }
+        if !bulk_echo.is_null() {
+            sev["bulk"] = bulk_echo.clone();
         }
         writeln!(out, "{}", sev).unwrap();
         for c in s["cases"].as_array().cloned().unwrap_or_default() {
